@@ -437,6 +437,23 @@ def run_explicit(ctx, idx, rng, tmp):
         check_file(ctx, exp_path, o1, ridx[sel], ov2, rng,
                    dict(case, exported_from_referrer=True, n_export=int(len(sel)),
                         export_features=efeats), expect_e)
+        if 0 < len(sel) < len(msk):
+            # the same path is written again in this process: other events, the same number
+            # of them (whatever was read from the first file must not be served again)
+            msk2 = np.zeros(len(msk), dtype=bool)
+            msk2[rng.choice(len(msk), len(sel), replace=False)] = True
+            if not np.array_equal(msk2, msk):
+                with _d.new_dataset(ref) as dsr:
+                    dsr.filter.manual[:] = msk2
+                    dsr.apply_filter()
+                    dsr.export.hdf5(exp_path, features=efeats, filtered=True, basins=True,
+                                    override=True)
+                sel2 = np.flatnonzero(msk2)
+                ov3 = {f: v[sel2] for f, v in override.items()}
+                check_file(ctx, exp_path, o1, ridx[sel2], ov3, rng,
+                           dict(case, exported_from_referrer=True, rewritten_at_same_path=True,
+                                n_export=int(len(sel2)), export_features=efeats), expect_e)
+                ctx.count("referrer_exports_rewritten_at_same_path")
         ctx.count("exports_of_explicit_referrers")
     if two:
         o2, bmap2 = expect2
